@@ -40,3 +40,22 @@ func (e *vEnv) VerifAllClosed() bool {
 	}
 	return true
 }
+
+// VerifNewLazyEnv: every behaviour of the deployer / plugin is chosen when reached
+// (deploy ok|error, schema ok|missing|error, result success|error|crash; the plugin answers at once).
+func VerifNewLazyEnv() *VerifEnv {
+	e := verifNewEnv(true)
+	e.lazy = false // preparation (schema probe) is scripted; the harness switches to lazy before the run
+	e.deployModes = 2
+	e.immediate = true
+	e.objectResult = true
+	return e
+}
+
+// VerifSucceeded: the plugin was executed and returned its success output.
+func (e *vEnv) VerifSucceeded() bool {
+	return e.execEntered == 1 && !e.resultErr && e.resultID == "success"
+}
+
+// VerifSetLazy switches between scripted (all fine) and lazily chosen behaviours.
+func (e *vEnv) VerifSetLazy(on bool) { e.lazy = on }
